@@ -27,8 +27,8 @@ func TestMain(m *testing.M) {
 }
 
 type shape struct {
-	tables  int
-	ragged  bool
+	tables int
+	ragged bool
 }
 
 var last shape
